@@ -32,6 +32,8 @@
 #include <parmcb/spvecgf2.hpp>
 #include <parmcb/util.hpp>
 
+#ifdef PARMCB_HAVE_TBB
+
 namespace parmcb {
 
     namespace detail {
@@ -284,5 +286,7 @@ namespace parmcb {
     }
 
 } // namespace parmcb
+
+#endif // PARMCB_HAVE_TBB
 
 #endif
